@@ -275,8 +275,22 @@ func (e *Explorer) verdicts(x *Exec, prefix []int) {
 	if len(vs) == 0 {
 		return
 	}
-	if e.maxViol > 0 && len(e.Stats.Violations) >= e.maxViol {
-		return
+	// the cap is per oracle: a frequent (possibly known) finding must not crowd out another one
+	if e.maxViol > 0 {
+		perOracle := map[string]int{}
+		for _, fv := range e.Stats.Violations {
+			perOracle[fv.Oracle]++
+		}
+		var keep []Violation
+		for _, v := range vs {
+			if perOracle[v.Oracle] < e.maxViol {
+				keep = append(keep, v)
+			}
+		}
+		vs = keep
+		if len(vs) == 0 {
+			return
+		}
 	}
 	// group by oracle: one finding per (oracle) per execution
 	seen := map[string]bool{}
